@@ -148,7 +148,7 @@ var functionalNoOps = map[string]string{
 var shiftName = regexp.MustCompile(`_(lshl|lshr|ashr|lshlrev|lshrrev|ashrrev)_[biu](16|32|64)$`)
 
 func runC03(c *core.Ctx) core.Meta {
-	c.Load(emuPkg, cdna3Pkg, instsPkg)
+	c.Load(emuPkg, cdna3Pkg, instsPkg, cuPkg, wfPkg)
 	c.BuildSSA()
 	t := LoadInstTables(c)
 	prov := core.NewLocalProv(c)
@@ -207,6 +207,19 @@ func runC03(c *core.Ctx) core.Meta {
 				st3.Ob(ok)
 				if !ok {
 					c.Report(core.Finding{Rule: "R03.3", Pkg: a.pkg, Func: a.typ + "." + dn, Detail: fmt.Sprintf("case-without-handler:%v", oc.values), Pos: c.Position(oc.pos), Msg: fmt.Sprintf("opcode case %v has no handler: the instruction executes as a silent no-op", oc.values)})
+				}
+				// a case whose opcode has no decode-table row can never be reached:
+				// its handler is dead code or, more likely, filed under the wrong
+				// opcode (the instruction then panics as "not implemented")
+				if len(uniq) > 0 {
+					for _, op := range oc.values {
+						st3.Instances++
+						_, has := t.Lookup(format, op)
+						st3.Ob(has)
+						if !has {
+							c.Report(core.Finding{Rule: "R03.3", Pkg: a.pkg, Func: a.typ + "." + dn, Detail: fmt.Sprintf("case-without-decode-row:%s:%d", format, op), Pos: c.Position(oc.pos), Msg: fmt.Sprintf("%s dispatches opcode %d of format %s to %v, but the decode table has no %s instruction with that opcode: the case is unreachable and the instruction the handler implements is dispatched nowhere", dn, op, format, sortedKeys(uniq), format)})
+						}
+					}
 				}
 				for cl := range uniq {
 					h := handlerRef{alu: a, format: format, opcodes: oc.values, name: cl}
@@ -1111,6 +1124,10 @@ func runC03(c *core.Ctx) core.Meta {
 	// ---------------- R03.20 SDWA sub-dword selection (c03sdwa.go, bitprov.go) ----------------
 	checkSDWASelect(c, alus, prov)
 	checkSDWAHandled(c, alus, handlers)
+
+	// ---------------- R03.22 VOP3 input modifiers (c03mod.go) ----------------
+	checkVOP3Modifiers(c, handlers, prov)
+	checkDecodedFieldsConsumed(c, prov)
 
 	// ---------------- R03.12 conditional moves select with the right polarity ----------------
 	st12 := c.Rule("R03.12", "v_cndmask_b32 writes S1 where the lane's bit of the condition mask (VCC, or the SGPR pair in SRC2) is set and S0 where it is clear; s_cselect writes S0 when SCC is 1 and S1 otherwise; s_cmov / s_cmovk write only when SCC is 1: decided by resolving the handler's test of the selector both ways and following the value that reaches the destination write", 6)
